@@ -435,10 +435,10 @@ class C14(Check):
                        "immut: the scenario ran to the end; distinct = distinct SHA1 of the whole case")
 
     def budget(self):
-        return 1500 if self.tier == "quick" else 20000
+        return 6000 if self.tier == "quick" else 60000
 
     def search_budget(self):
-        return 4000 if self.tier == "quick" else 30000
+        return 8000 if self.tier == "quick" else 60000
 
     # ---- generation ---------------------------------------------------------
     def gen_cases(self, rng, n):
@@ -940,8 +940,10 @@ class C14(Check):
                 if not ok:
                     fails.append(Failure("oracle", "accepted-feasible:" + name,
                                          f"accepted job sequences gave a schedule violating '{name}'", observed=out[1]))
+        self.note("perm_outcome_" + {0: "accepted", 1: "validation_error", 3: "index_error"}.get(out[0], str(out[0])))
         if single_machine(spec) and true_permutation(spec, seqs):
             ok = acyclic(spec, seqs)
+            self.note("perm_true_permutation_" + ("acyclic" if ok else "cyclic"))
             if ok and out[0] != 0:
                 fails.append(Failure("oracle", "acyclic-rejected", "acyclic job sequences were rejected", observed=out))
             if not ok and out != [1]:
@@ -974,14 +976,24 @@ class C14(Check):
         return len(spec) >= 2 and sum(len(j) for j in spec) >= 3
 
     def shrink_candidates(self, case):
-        if "spec" not in case or case["kind"] in ("taillard", "sched", "perm"):
+        if "spec" not in case or case["kind"] == "taillard":
             return
         spec = case["spec"]
-        for j in range(len(spec)):
-            yield dict(case, spec=spec[:j] + spec[j + 1:])
-        for j, job in enumerate(spec):
-            if job:
-                yield dict(case, spec=spec[:j] + [job[:-1]] + spec[j + 1:])
+        kind = case["kind"]
+        if kind in ("views", "immut"):
+            for j in range(len(spec)):
+                yield dict(case, spec=spec[:j] + spec[j + 1:])
+            for j, job in enumerate(spec):
+                if job:
+                    yield dict(case, spec=spec[:j] + [job[:-1]] + spec[j + 1:])
+        if kind == "perm" and len(spec) > 1:
+            j = len(spec) - 1                      # drop the last job and its entries
+            yield dict(case, spec=spec[:-1], seqs=[[x for x in s if x != j] for s in case["seqs"]])
+        if kind == "sched" and len(spec) > 1:
+            j = len(spec) - 1
+            yield dict(case, spec=spec[:-1], hist=[h for h in case["hist"] if h[0] != j])
+        if kind == "sched" and case["hist"]:
+            yield dict(case, hist=case["hist"][:-1])
         for j, job in enumerate(spec):
             for p, (ms, d) in enumerate(job):
                 if d > 1:
